@@ -274,7 +274,7 @@ def _rand_case(rnd, names, envnames, maxlen=200):
             p = "$" + rnd.choice(names)
             if rnd.random() < 0.5:
                 # what follows a name immediately is not part of it
-                p += rnd.choice(["é", "K", "ａ", "١", "-", "{",
+                p += rnd.choice(["é", "\u212a", "ａ", "١", "-", "{",
                                  "}", "$$", " ", "("])
         elif r < 0.75:
             p = "${" + rnd.choice(names) + "}"
